@@ -524,6 +524,16 @@ func moOtherSources(c *Ctx, a *flAgg) {
 								if !sortedUse {
 									hits = append(hits, hit{f, in.Pos(), "iterates a map through maps." + cal.Name() + " without sorting the result (slices.Sorted): the order is random", "maps-iter"})
 								}
+							case pp == "os" && cal.Name() == "OpenFile" && len(in.Common().Args) == 3:
+								// a file written as a whole is created empty: opened
+								// for writing without O_TRUNC (or O_APPEND, O_EXCL) it
+								// keeps the tail of whatever an earlier run left there
+								if k, isC := bnConst(in.Common().Args[1]); isC {
+									const oWR, oRDWR, oAPPEND, oEXCL, oTRUNC = 0x1, 0x2, 0x400, 0x80, 0x200
+									if k&(oWR|oRDWR) != 0 && k&(oTRUNC|oAPPEND|oEXCL) == 0 {
+										hits = append(hits, hit{f, in.Pos(), "a file is opened for writing without truncating it: the output keeps the tail of a longer file left by an earlier run, so it depends on history", "open-no-trunc"})
+									}
+								}
 							case pp == "time" && cal.Name() == "Now":
 								if funcKey(f) == "stack.toHTML" {
 									okTime++
